@@ -60,6 +60,17 @@ def spec_files_by_alias(node, path='', apath=''):
     return out
 
 
+def spec_alias_paths(node, path='', apath=''):
+    """{long path (upper) : all-alias path (upper)} of every file"""
+    out = {}
+    for k in node['children']:
+        if k['kind'] == 'file':
+            out[(path + '/' + k['name']).upper()] = (apath + '/' + k['sfn']).upper()
+        else:
+            out.update(spec_alias_paths(k, path + '/' + k['name'], apath + '/' + k['sfn']))
+    return out
+
+
 def fat_copies_differ_only_in_entry1(g, vol):
     size = g.fat_sectors * g.bps
     first = vol[g.fat_off:g.fat_off + size]
@@ -80,6 +91,7 @@ def examine(ctx, R, g, events, before_tree, op, info, initial_dirty_clear=True):
     # a renamed / removed directory takes its content with it: those files are targets too
     watch = {p: d for p, d in watch.items() if not any((p.upper() + '/').startswith(s + '/') for s in skip)}
     pokes = [e for e in events if e[0] == 'poke']
+    alias_of = {}       # long path -> alias path, learnt from the images in which the long name is visible
     for k, ev in enumerate(pokes):
         vol = ev[3][GUARD:len(ev[3]) - GUARD]
         probs = fatspec.spec_wf(R, vol)
@@ -113,8 +125,15 @@ def examine(ctx, R, g, events, before_tree, op, info, initial_dirty_clear=True):
         geom, spec = fatspec.spec_abs(R, vol)
         have = spec_files(spec)
         alias = spec_files_by_alias(spec)
+        for lp, ap in spec_alias_paths(spec).items():
+            alias_of.setdefault(lp, ap)
         for p, data in watch.items():
             got = have.get(p.upper())
+            if got is None and alias.get(alias_of.get(p.upper())) == data:
+                # "still present, under its long OR short name": while a directory is being compacted an entry may be
+                # listed under its 8.3 name only (theorem FatCrash.bystanders_intact_x states exactly this bound)
+                ctx.stat('bystander-visible-by-short-name-only')
+                continue
             if got is None or got[0] != data:
                 ctx.violation('fs.crash/bystander-harmed',
                               f'{jsonable_op(op)}: at intermediate image {k + 1}/{len(pokes)} the unrelated file {p!r} is '
@@ -129,7 +148,7 @@ def examine(ctx, R, g, events, before_tree, op, info, initial_dirty_clear=True):
 
 
 def run(ctx, build):
-    lib.corr_modules(ctx, SPEC, ['fat_dir_corr'])
+    lib.corr_modules(ctx, SPEC, ['fat_dir_corr', 'fat_crash_corr'])
     R = ctx.runner('Fat')
     rng = ctx.rng
     nhist = 24 if ctx.thorough else 7
@@ -201,18 +220,27 @@ def run(ctx, build):
             g = fatimg.Geometry(ft, 40, spc=1, bps=512, nfats=2, root_entries=16, type_string=True)
             b = fatimg.Builder(g, rng)
             t = fatops.Tree()
-            for k in range(16):
-                nm = f'R{k}.BIN'
+            used_aliases = set()
+            k = 0
+            while len(b.dirs[id(b.tree)]['slots']) < 16:
+                free_slots = 16 - len(b.dirs[id(b.tree)]['slots'])
                 data = bytes([k + 1]) * 10
-                b.add(b.tree, nm, (nm.split('.')[0].encode().ljust(8), b'BIN'), data=data, lfn=False)
-                t.root['children'][nm] = {'kind': 'file', 'name': nm, 'data': bytearray(data)}
+                if k == 2 and free_slots >= 4:
+                    nm = f'long file name number {k}.txt'           # a long-named bystander (4 slots) among the short ones
+                    b.add(b.tree, nm, fatimg.alias_for(nm, used_aliases), data=data)
+                else:
+                    nm = f'R{k}.BIN'
+                    b.add(b.tree, nm, (nm.split('.')[0].encode().ljust(8), b'BIN'), data=data, lfn=False)
+                t.root['children'][nm.upper()] = {'kind': 'file', 'name': nm, 'data': bytearray(data)}
+                k += 1
+            short = [v['name'] for v in t.root['children'].values() if v['name'].startswith('R')]
             buf = bytearray(b'\xA5' * GUARD) + b.img + bytearray(b'\x5A' * GUARD)
             tr = fattrace.Tracer(buf, slice(GUARD, len(buf) - GUARD))
             fs = tr.open_fs()
             try:
-                for j in (1, 4, 5, 8, 11, 13):              # scattered deleted entries, none at the end
-                    fatops.apply_impl(fs, dict(op='unlink', path=f'/R{j}.BIN'))
-                    del t.root['children'][f'R{j}.BIN']
+                for nm in [short[i] for i in (1, 2, 4, 5, 7, 8) if i < len(short) - 1]:      # scattered deleted entries, none at the end
+                    fatops.apply_impl(fs, dict(op='unlink', path='/' + nm))
+                    del t.root['children'][nm.upper()]
                 op = mk('/a name needing four slots in all.txt')
                 before = copy.deepcopy(t)
                 fatops.apply_model(t, op)
